@@ -2,7 +2,7 @@
     the family number; the verdict says whether the implementation's observed
     behaviour equals the model's. *)
 From Coq Require Import List ZArith Bool.
-From FF Require Import Sx Dispatch TaskTree StoreModel StoreCheck PreCheck EngineMon TaskRun ShareData.
+From FF Require Import Sx Dispatch TaskTree StoreModel StoreCheck PreCheck EngineMon TaskRun ShareData Vars.
 Import ListNotations.
 Local Open Scope Z_scope.
 
@@ -13,6 +13,7 @@ Definition run_monitor (family : Z) (c : sx) : option bool :=
   | 21 => monitor_worker_key_case c
   | 40 => monitor_precheck c
   | 41 => monitor_sharedata c
+  | 50 => monitor_vars c
   | _ => if (100 <? family) && (family <? 200) then monitor_journal (family - 100) c else None
   end.
 
@@ -31,6 +32,7 @@ Definition run_case (family : Z) (c : sx) : verdict :=
   | 22 => check_flake_case c
   | 40 => check_precheck c
   | 41 => check_sharedata c
+  | 50 => check_vars c
   | _ => if (100 <? family) && (family <? 200)
          then match check_journal_store c with OkCase => check_runs c | v => v end
          else BadCase 0
